@@ -48,6 +48,20 @@ RECURSION += [
     ("eval", "function r(){ return eval('r()'); } r();"),
     ("eval-string-grows", "function r(){ return eval('1 + r()'); } r();"),
     ("mixed-cb-getter", "var o = { get p(){ return [1].map(function(){ return o.p; }); } }; o.p;"),
+    # every other native-to-script route (the deeper the host stack per level, the sooner the host limit is met)
+    ("replace-string-fn", "function r(){ 'a'.replace('a', function(){ r(); return 'b'; }); } r();"),
+    ("replaceAll-string-fn", "function r(){ 'aa'.replaceAll('a', function(){ r(); return 'b'; }); } r();"),
+    ("replace-regexp-fn", "function r(){ 'a'.replace(/a/g, function(){ r(); return 'b'; }); } r();"),
+    ("replace-mutual", "function p(){ 'a'.replace('a', q); return 'x'; } function q(){ 'b'.replace(/b/, p); return 'y'; } p();"),
+    ("String()-toString", "var o = {toString: function(){ return String(o); }}; String(o);"),
+    ("JSON-getter", "var o = {get p(){ return JSON.stringify(o); }}; JSON.stringify(o);"),
+    ("values-getter", "var o = {get p(){ return Object.values(o); }}; Object.values(o);"),
+    ("assign-getter-setter", "var o = {get p(){ return Object.assign({}, o); }}; Object.assign({}, o);"),
+    ("setter-via-assign", "var t = {set p(v){ Object.assign(t, {p: 1}); }}; Object.assign(t, {p: 1});"),
+    ("concat-valueOf-in-callback", "function r(){ return [1].map(function(){ return '' + {toString: r}; }); } r();"),
+    ("bound-callback", "function r(){ [1].forEach(r.bind(null)); } r();"),
+    ("apply-in-reduce", "function r(){ return [1, 2].reduce(function(a){ return r.apply(null, []); }, 0); } r();"),
+    ("new-in-callback", "function K(){ [1].map(function(){ return new K(); }); } new K();"),
     # recursion that alternates nested evaluators (eval / new Function: a VM of their own) with every other native-to-script
     # transition: the depth accounting has to carry across VM boundaries
     ("eval+forEach", "function r(){ [1].forEach(function(){ eval('r()'); }); } r();"),
